@@ -37,6 +37,26 @@ def rdNext (pending : List Bytes) (fused : Bool) (room : Nat) : RdRes :=
 
 /-! ## TCP: `Bidirectional` -/
 
+/-- What kind of object the relay is handed for a side (how the production callers build it):
+* `cw`    — implements `CloseWrite` itself (`*net.TCPConn`-like: the local application socket);
+* `same`  — `iocopy.NewReadWriteCloser(conn, conn, closeFn)`: reader and writer are the SAME transport
+            connection, which has `Close` but no `CloseWrite` (websocket / KCP / QUIC tunnel conn) — the way
+            mapping/base.go, target_handler.go `createTunnelRWC` and socks5_tunnel.go build the tunnel side;
+* `split` — `NewReadWriteCloser(r, w, closeFn)` with distinct reader and writer objects, the writer has `Close` only;
+* `none`  — `NewReadWriteCloser(r, w, closeFn)`, the writer has neither `CloseWrite` nor `Close`. -/
+inductive Kind where
+  | cw | same | split | none
+deriving DecidableEq, Repr, Inhabited
+
+/-- `tryCloseWrite(conn)` followed, for the wrapper kinds, by `readWriteCloser.CloseWrite()`
+(`closeWriteFunc` is nil, the Writer is no `CloseWriter`: nothing happens): does the half-close reach
+the transport?  Only for an object that implements `CloseWrite`.  For the other kinds the peer does
+not see the end of this direction until the final `Close` — and nothing else may happen to the
+connection, in particular its read side stays open. -/
+def tryCloseWrite : Kind → Bool
+  | .cw => true
+  | _ => false
+
 /-- A socket as the relay sees it. -/
 structure EP where
   reads : List Bytes        -- what successive Reads return (an empty chunk is `(0, nil)`)
@@ -44,6 +64,7 @@ structure EP where
   fused : Bool              -- last chunk and tail are returned together
   wfail : Option Nat        -- the Write call with this index is refused
   closeOnTail : Bool        -- full close: once its tail has been returned every Write to it is refused
+  kind : Kind               -- what the relay is handed for this side
 deriving DecidableEq, Repr
 
 inductive DErr where
@@ -146,7 +167,7 @@ structure TcpObs where
   wfB : Bool                -- B refused a Write (environment fault)
   wfA : Bool
   bad : Bool                -- the relay wrote to a socket it had itself closed / half-closed
-  cwB : Bool                -- CloseWrite(B) issued
+  cwB : Bool                -- a half-close reached socket B
   cwA : Bool
   closed : Bool             -- Close issued on both
   sent : Nat
@@ -155,9 +176,9 @@ structure TcpObs where
   rerr : DErr
 deriving DecidableEq, Repr
 
-def tcpObs (s : TcpSt) : TcpObs :=
+def tcpObs (A B : EP) (s : TcpSt) : TcpObs :=
   { ret := s.returned, toB := s.ab.delivered, toA := s.ba.delivered, wfB := s.ab.wfEnv, wfA := s.ba.wfEnv,
-    bad := false, cwB := s.ab.done, cwA := s.ba.done, closed := s.returned,
+    bad := false, cwB := s.ab.done && tryCloseWrite B.kind, cwA := s.ba.done && tryCloseWrite A.kind, closed := s.returned,
     sent := s.ab.bytes, recv := s.ba.bytes, serr := s.ab.err, rerr := s.ba.err }
 
 /-! ## UDP: the length-prefixed stream encoding -/
